@@ -113,6 +113,11 @@ func (s *State) assume(t string) {
 	if t == "true" {
 		return
 	}
+	// auxiliary facts about a term under a quantifier (length facts etc.) mention its bound variable and cannot be
+	// stated outside: dropped (they only ever strengthen the hypotheses)
+	if strings.Contains(t, "|q_") && !strings.Contains(t, "(forall ") && !strings.Contains(t, "(exists ") {
+		return
+	}
 	s.pc = append(s.pc, t)
 }
 
@@ -1744,6 +1749,12 @@ func (e *Engine) loadGlobal(st *State, name string, t types.Type) Val {
 	// string constants held in vars, byte-slice prefixes
 	if v, ok := e.globalInit(st, name, t); ok {
 		return v
+	}
+	if isByteSlice(t) {
+		// a package-level byte-slice constant built by a composite literal: a fixed, non-nil, unknown value (A-GLOBALS)
+		n := "|g_" + sanitize(name) + "|"
+		e.C.DeclareFun(n, nil, SStr)
+		return mk(SBytes, "(mkB false "+n+")")
 	}
 	if bt, ok := t.Underlying().(*types.Basic); ok {
 		// a package-level variable with a non-constant initialiser: an unknown but fixed value (A-GLOBALS:
